@@ -140,6 +140,18 @@ CHECKS = {
         "(it would follow from completeness of the search, assumptions A-bravais/A-coeff)."),
   technique="Lean 4 covariance theorems for the specification + metamorphic differential runs with invariants extracted by the Lean driver",
   engine="lean-proofs+metamorphic"),
+
+ "C07": dict(
+  category="proof",
+  text=("Verified oracle + table theorems. Labelling: model of orbits_from_permutations / orbits_in_cell with orbits_spec (labels = least element of the class generated by i ~ pi(i)), "
+        "tied by correspondence on random permutation sets; labels_sound: checkC07orbits = [] => same label <=> same generating orbit, label least, letter/symbol constant on orbits. "
+        "Wyckoff: wyckoff_sound: checkC07wyckoff = [] => for every atom the stabilizer counted directly in std_cell under the tabulated operations of the reported Hall number satisfies "
+        "multiplicity(letter) = #ops/|Stab|, order(point group named by the symbol) = |Stab|, and some atom of the orbit lies on the tabulated coordinate subspace (exhibited n, y). "
+        "C16(i) over all 3467 regenerated rows, kernel-decided: every coordinate string parses, generic orbit size = multiplicity, #ops/multiplicity = order of the named point group, letters contiguous, "
+        "equal-multiplicity letters generically disjoint. Parser model tied to WyckoffPositionSpace::new by exhaustive correspondence. Explored: atoms on every second (quick) / every (thorough) "
+        "tabulated position of every Hall setting + a general-position species, re-described cells, supercells."),
+  design_ref="DESIGN.md §3 C07", note=PIPE_NOTE + " Completeness of the subspace clause (no false alarm) is argued, not proved; moyo's SNF-based assign_wyckoff_position is not modelled.",
+  technique="Lean 4 verified oracle (stabilizers in std_cell) + kernel-decided Wyckoff table theorems + parser/orbit-labelling correspondence"),
 }
 
 NA_REASON = "check not built yet (work in progress; will be claimed)"
